@@ -122,7 +122,7 @@ def otsuData (xs : List Rat) (n : Nat := 256) : Rat :=
 
 /-- a float quotient as far as the mechanism can reach it: `x / 0` is not a number (`none`).  In the mechanism
 the numerator is a sum over the same (empty) class as the denominator, so it is `0/0` = NaN, never ±inf
-(lemma `prefix_moment_zero`). -/
+(theorem `zero_over_zero`). -/
 def divN (a b : Rat) : Option Rat := if b = 0 then none else some (a / b)
 
 /-- NaN-propagating subtraction -/
